@@ -72,6 +72,12 @@ class AutoOptimizer(PathOptimizer):
             self._optimizer_hyper_cls = HyperOptimizer
 
     def _get_optimizer_hyper_threadsafe(self):
+        if self._optimizer_hyper_cls is HyperOptimizer:
+            # a plain hyper optimizer keeps the trials and best tree of the
+            # one contraction it has been run on, so it can't be reused for
+            # any other contraction (unlike the reusable, caching, version)
+            return HyperOptimizer(minimize=self.minimize, **self.kwargs)
+
         # since the hyperoptimizer is stateful while running,
         # we need to instantiate a separate one for each thread
         tid = threading.get_ident()
